@@ -8,15 +8,18 @@ def run(ctx):
     thorough = ctx.tier == 'thorough'
     # E1: deadlock freedom with the time-out action removed, every kernel choice of futex waiters
     for cfg, lab in (('MC_idle_fq.cfg', 'schedule(FQ) into 2 parked workers'),
+                     ('MC_idle_placed.cfg', 'schedulePlaced(FQ) (steal ring) into 2 parked workers'),
                      ('MC_idle_rbulk_g4.cfg', 'ring fast path, 2 tasks, one group of 3 parked workers'))+ \
             ((('MC_idle_bulk.cfg', 'scheduleBulk(2) into 3 parked workers'),
-              ('MC_idle_rbulk.cfg', 'ring fast path, 2 tasks, groups of 2')) if thorough else ()):
+              ('MC_idle_rbulk.cfg', 'ring fast path, 2 tasks, groups of 2'),
+              ('MC_idle_placed3.cfg', 'schedulePlaced x2 into 3 parked workers')) if thorough else ()):
         ctx.check_model(pc.SPEC, 'MCPool.tla', cfg, WHAT, label=lab + ' (no time-outs, deadlock check)', workers=8,
                         vacuity_exempt=VAC)
     n = 12 if thorough else 4
     scen = [(2, 'main:new2,idle,fq1,quiet,del'), (2, 'main:new3,idle,bulk1.2,quiet,del'),
             (4, 'main:new3,idle,rbulk1.2,quiet,del'), (2, 'main:new3,idle,rbulk1.3,quiet,del'),
             (4, 'main:new3,idle,bulk1.3,quiet,del'), (2, 'main:new1,idle,sched1,quiet,del')]
+    scen += [(2, 'main:new2,idle,pfq1,quiet,del'), (2, 'main:new3,idle,placed1,quiet,idle,pfq2,quiet,del')]
     if thorough:
         scen += [(4, 'main:new3,idle,rbulk1.1,quiet,del'), (2, 'main:new3,idle,rbulk1.2,quiet,del'),
                  (4, 'main:new2,idle,fq1,quiet,del'), (4, 'main:new3,idle,rbulk1.3,quiet,del')]
